@@ -1,7 +1,7 @@
 (* Checkers evaluated by the correspondence run: each returns the indices of
    the cases on which the model and the implementation's observed output
    differ (or on which the specification-side predicate disagrees). *)
-From V Require Import Common.Base C14.Compat C14.Spec C14.LowerGraph.
+From V Require Import Common.Base C14.Compat C14.Spec C14.LowerGraph C14.Css.
 
 Fixpoint mism_from {A} (f : A -> bool) (l : list A) (i : nat) : list nat :=
   match l with
@@ -47,3 +47,17 @@ Definition lower_ok (c : list feature * list feature * bool * list feature) : bo
   | _, _ => false
   end.
 Definition check_lower := mismatches lower_ok.
+
+(* CSS: compat.UnsupportedCSSFeatures(constraints) = Go uint16 *)
+Definition css_unsupported_ok (c : list constraint * Z) : bool :=
+  let '(cs, go) := c in UnsupportedCSSFeatures cs =? go.
+Definition check_css_unsupported := mismatches css_unsupported_ok.
+
+(* CSS lowering gates: (unsupported set, features the probe uses, features seen in the output):
+   every unsupported feature seen in the output is one the model says is written *)
+Definition css_lower_ok (c : list css_feature * list css_feature * list css_feature) : bool :=
+  let '(ul, prog, observed) := c in
+  let U := css_fset_of ul in
+  let out := css_compile U prog in
+  forallb (fun g => negb (U g) || existsb (css_feature_eqb g) out) observed.
+Definition check_css_lower := mismatches css_lower_ok.
